@@ -244,7 +244,7 @@ func ScriptOutcome(a spec.Action) bool {
 		switch st.Out {
 		case plug.OK:
 			return true
-		case plug.Permanent, plug.WrongType, plug.WrongTypeErr:
+		case plug.Permanent, plug.WrongType, plug.WrongTypeErr, plug.WrongPtr:
 			return false
 		}
 	}
